@@ -58,16 +58,16 @@ def zero_nodes(maxh):
     return z
 
 
-def merkle_table(data, f, extra=3, table=None):
+def merkle_table(data, f, extra=3, table=None, block=BLOCK):
     """All nodes N(f,h,i) of the zero-padded merkle tree over the 16 KiB blocks of `data`
     that contain at least one real block, up to `extra` levels above the minimal root."""
     table = {} if table is None else table
-    nb = (len(data) + BLOCK - 1) // BLOCK
+    nb = (len(data) + block - 1) // block
     if nb == 0:
         return table
     maxh = max(1, (nb - 1).bit_length()) + extra
     z = zero_nodes(maxh + 1)
-    level = [sha256(data[i * BLOCK:(i + 1) * BLOCK]) for i in range(nb)]
+    level = [sha256(data[i * block:(i + 1) * block]) for i in range(nb)]
     for h in range(maxh + 1):
         for i, d in enumerate(level):
             table.setdefault(d, []).append(["N", f, h, i])
